@@ -334,6 +334,11 @@ class Check:
         self.replay_dir = os.environ.get("VERIF_REPLAY_DIR", os.path.join(VERIF, "replays"))
         os.makedirs(self.replay_dir, exist_ok=True)
         os.makedirs(self.evidence_dir, exist_ok=True)
+        for old in glob.glob(os.path.join(self.replay_dir, pid + "-*.replay")):   # replays of earlier runs of this check
+            try:
+                os.remove(old)
+            except OSError:
+                pass
 
     # -- reporting
     def violation(self, what, replay_lines, nofail=False, signature=None):
